@@ -216,8 +216,8 @@ def loader_clause(model, rep, funcs):
     g = funcs.get(LB + "fsc_with_average")
     if f is not None and g is not None:
         rep.instance("S11.fsc", f.loc())
-        ok = "return self.fsc_with_average(mask, seed, n_set, dfreq)[0]" in norm_src(f.node)
-        ok2 = "self.fsc_with_halfmaps(mask=mask, seed=seed, n_set=n_set, dfreq=dfreq, zero_norm=zero_norm, squeeze=False)" in norm_src(g.node)
+        ok = Matcher(f).has("return self.fsc_with_average(mask, seed, n_set, dfreq)[0]")
+        ok2 = Matcher(g).has("self.fsc_with_halfmaps(mask=mask, seed=seed, n_set=n_set, dfreq=dfreq, zero_norm=zero_norm, squeeze=False)")
         rep.ob("S12", f.anchor, "fsc -> fsc_with_average -> fsc_with_halfmaps forward mask, seed, n_set and dfreq unchanged", ok and ok2, "", node=f.node, fn=f,
                clause="loader level", stmt="fsc forwarding")
 
